@@ -560,12 +560,68 @@ def rule_getattr(run):
     run.end()
 
 
+def rule_returns_always(run):
+    run.begin(
+        "C10.returns",
+        "a statement `returns always` only if EVERY path through it returns: an if/elif chain built from a for loop "
+        "(out.CondSelect) without a default branch falls through when no condition holds (abstract evaluation of its "
+        "constructor); statement lists stop at the first statement that returns always (C10.unreach)",
+        floor=4,
+    )
+    from ..absint import Interp, Reject
+    om = run.idx.mod("cohdl/_compiler/frontend/_prepare_ast_out.py")
+    f = om.func("CondSelect.__init__")
+
+    class _Blk:
+        def __init__(self, ret):
+            self.ret = ret
+
+        def returns(self):
+            return self.ret
+
+        def returns_always(self):
+            return self.ret
+
+        def return_paths(self):
+            return ["rp"] if self.ret else []
+
+    class _Self:
+        pass
+
+    for n_br, ret, has_default, exp in ((2, True, False, False), (2, True, True, True), (1, True, False, False), (2, False, False, False), (2, False, True, False)):
+        so = _Self()
+        got = {}
+
+        class _Super:
+            pass
+
+        def _mk():
+            o = _Super()
+
+            def init(*a, **k):
+                got["returns_always"] = a[0] if a else k.get("returns_always")
+                got["return_paths"] = a[1] if len(a) > 1 else k.get("return_paths")
+            o.__dict__["__init__"] = init
+            return o
+        prims = {"super": _mk, "any": any, "all": all, "__setattr__": lambda o, k, v: setattr(o, k, v), "len": len}
+        branches = [("cond", _Blk(ret)) for _ in range(n_br)]
+        default = _Blk(ret) if has_default else None
+        try:
+            Interp(om, prims).call_function("CondSelect.__init__", so, branches, default)
+            ra = got.get("returns_always")
+        except Reject as e:
+            ra = f"rejected: {e}"
+        run.ob(bool(ra) is exp and not isinstance(ra, str), "out.CondSelect.__init__", file=om.rel, line=f.node.lineno,
+               detail=f"branches={n_br},return={ret},default={has_default}", expected=f"returns_always={exp}", found=f"returns_always={ra}")
+    run.end()
+
+
 def rule_purge(run):
     from . import c11
     c11.rule_definition_purge(run)   # a stale cached definition makes a traced function see old globals (C10) and history (C11)
 
 
-RULES = [rule_tables, rule_dispatch, rule_compare_chain, rule_boolop, rule_fail_closed, rule_bind, rule_env, rule_builtins, rule_siblings, rule_unpack, rule_purge, rule_defaults, rule_comprehension, rule_unreachable, rule_getattr]
+RULES = [rule_tables, rule_dispatch, rule_compare_chain, rule_boolop, rule_fail_closed, rule_bind, rule_env, rule_builtins, rule_siblings, rule_unpack, rule_purge, rule_defaults, rule_comprehension, rule_unreachable, rule_getattr, rule_returns_always]
 LEVEL = "other"
 EXPLANATION = (
     "The tracer re-implements CPython's evaluation rules by hand; decided here, for all programs, are the parts of "
